@@ -955,6 +955,185 @@ impl Model {
         same(ok(Val::OptPath(None)))
     }
 
+    /// C20: what each assert_vfs_* macro must do in the current state. Checking macros panic
+    /// exactly when their predicate is false (message names macro and path); acting macros perform
+    /// the operation and panic exactly when the postcondition does not hold.
+    fn macro_eval(&self, name: &str, a: &str, b: &Option<String>, mode: Option<u32>, d: &Option<Bytes>) -> Vec<Alt> {
+        let mname = format!("assert_vfs_{}!", name);
+        let pass = || same(ok(Val::Unit));
+        let panic_with = |path: &str| same(Expect::PanicWith(vec![mname.clone(), path.to_string()]));
+        let pa = match self.abs(a) {
+            Ok(p) => p,
+            Err(_) => return same(Expect::PanicWith(vec![mname.clone()])),
+        };
+        let k = self.k(&pa);
+        let is_link = matches!(k, K::LinkF | K::LinkD);
+        let text = d.as_ref().map(|x| String::from_utf8_lossy(&x.0).into_owned()).unwrap_or_default();
+        // effect of an underlying call as the model defines it: (Ok?, successor)
+        let effect = |op: Op| -> Vec<(bool, Next)> {
+            self.eval(&op)
+                .into_iter()
+                .map(|al| {
+                    let okk = matches!(al.expect, Expect::Exact(Outcome::Ok(_)) | Expect::OkAny | Expect::OkOneOf(_));
+                    (okk, al.next)
+                })
+                .collect()
+        };
+        let after = |n: &Next| -> Tree {
+            match n {
+                Next::State(t) => (**t).clone(),
+                _ => self.t.clone(),
+            }
+        };
+        match name {
+            "exists" => if k != K::Missing { pass() } else { panic_with(&pa) },
+            "no_exists" => if k == K::Missing { pass() } else { panic_with(&pa) },
+            "is_dir" => if k == K::Dir { pass() } else { panic_with(&pa) },
+            "no_dir" => if k != K::Dir { pass() } else { panic_with(&pa) },
+            "is_file" => if k == K::File { pass() } else { panic_with(&pa) },
+            "no_file" => if k != K::File { pass() } else { panic_with(&pa) },
+            "is_symlink" => if is_link { pass() } else { panic_with(&pa) },
+            "no_symlink" => if !is_link { pass() } else { panic_with(&pa) },
+            "read_all" => {
+                let good = k == K::File && self.t.nodes[&pa].data.as_ref().map(|x| String::from_utf8(x.0.clone()).ok() == Some(text.clone())).unwrap_or(false);
+                if good { pass() } else { same(Expect::PanicWith(vec![mname.clone()])) }
+            },
+            "readlink" => {
+                let want = b.clone().unwrap_or_default();
+                let good = is_link && self.t.nodes[&pa].rel.as_deref() == Some(want.as_str());
+                if good { pass() } else { same(Expect::PanicWith(vec![mname.clone()])) }
+            },
+            "readlink_abs" => {
+                let want = self.abs(&b.clone().unwrap_or_default());
+                match want {
+                    Err(_) => same(Expect::PanicWith(vec![mname.clone()])),
+                    Ok(w) => {
+                        let good = is_link && self.t.nodes[&pa].target.as_deref() == Some(w.as_str());
+                        if good { pass() } else { same(Expect::PanicWith(vec![mname.clone()])) }
+                    },
+                }
+            },
+            "mkdir_p" | "mkdir_m" => {
+                let op = if name == "mkdir_p" { Op::MkdirP { p: pa.clone() } } else { Op::MkdirM { p: pa.clone(), mode: mode.unwrap_or(0o40755) & 0o7777 } };
+                let mut alts = vec![];
+                for (okk, n) in effect(op) {
+                    let t = after(&n);
+                    let post_dir = t.nodes.get(&pa).map(|x| x.kind == Kind::Dir).unwrap_or(false);
+                    let post_mode = name == "mkdir_p" || t.nodes.get(&pa).map(|x| Some(x.mode) == mode).unwrap_or(false);
+                    if okk && post_dir && post_mode {
+                        alts.push(alt(ok(Val::Unit), Next::State(Box::new(t))));
+                    } else {
+                        alts.push(alt(Expect::PanicWith(vec![mname.clone()]), Next::State(Box::new(t))));
+                    }
+                }
+                alts
+            },
+            "mkfile" => {
+                if k != K::Missing {
+                    return if k == K::File { pass() } else { panic_with(&pa) };
+                }
+                effect(Op::Mkfile { p: pa.clone() })
+                    .into_iter()
+                    .map(|(okk, n)| {
+                        let t = after(&n);
+                        let good = okk && t.nodes.get(&pa).map(|x| x.kind == Kind::File).unwrap_or(false);
+                        alt(if good { ok(Val::Unit) } else { Expect::PanicWith(vec![mname.clone()]) }, Next::State(Box::new(t)))
+                    })
+                    .collect()
+            },
+            "write_all" => {
+                // an acting macro performs the operation: afterwards the file holds the data
+                effect(Op::WriteAll { p: pa.clone(), d: Bytes(text.clone().into_bytes()) })
+                    .into_iter()
+                    .map(|(okk, n)| {
+                        let t = after(&n);
+                        let good = okk && t.nodes.get(&pa).map(|x| x.kind == Kind::File).unwrap_or(false);
+                        alt(if good { ok(Val::Unit) } else { Expect::PanicWith(vec![mname.clone()]) }, Next::State(Box::new(t)))
+                    })
+                    .collect()
+            },
+            "copyfile" => {
+                let pb = match self.abs(&b.clone().unwrap_or_default()) {
+                    Ok(p) => p,
+                    Err(_) => return same(Expect::PanicWith(vec![mname.clone()])),
+                };
+                if k != K::File {
+                    return panic_with(&pa);
+                }
+                effect(Op::Copy { s: pa.clone(), d: pb.clone() })
+                    .into_iter()
+                    .map(|(okk, n)| {
+                        if matches!(n, Next::Resync(_)) {
+                            return alt(Expect::Any, n);
+                        }
+                        let t = after(&n);
+                        // the copy lands at dst, or inside dst when that is a directory
+                        let into = self.k(&pb) == K::Dir;
+                        let land = if into { join(&pb, base(&pa)) } else { pb.clone() };
+                        let src_text = self.t.nodes[&pa].data.as_ref().and_then(|x| String::from_utf8(x.0.clone()).ok());
+                        let good = okk
+                            && !into
+                            && src_text.is_some()
+                            && t.nodes.get(&land).map(|x| x.kind == Kind::File && x.data == self.t.nodes[&pa].data).unwrap_or(false);
+                        if good {
+                            let mut al = alt(ok(Val::Unit), Next::State(Box::new(t)));
+                            // parents created on the fly: their mode is not pinned down
+                            let mut cur = parent(&land);
+                            while let Some(c) = cur {
+                                if self.k(&c) != K::Missing {
+                                    break;
+                                }
+                                al.free_mode.push(c.clone());
+                                cur = parent(&c);
+                            }
+                            al
+                        } else if okk && (into || src_text.is_none()) {
+                            // the macro reads dst itself: with a directory destination or binary
+                            // data its verdict is not pinned down by the statement
+                            alt(Expect::Any, Next::State(Box::new(t)))
+                        } else {
+                            alt(Expect::PanicWith(vec![mname.clone()]), Next::State(Box::new(t)))
+                        }
+                    })
+                    .collect()
+            },
+            "symlink" => {
+                if k != K::Missing {
+                    return if is_link { pass() } else { panic_with(&pa) };
+                }
+                effect(Op::Symlink { l: pa.clone(), t: b.clone().unwrap_or_default() })
+                    .into_iter()
+                    .map(|(okk, n)| {
+                        if matches!(n, Next::Resync(_)) {
+                            return alt(Expect::Any, n);
+                        }
+                        let t = after(&n);
+                        let good = okk && t.nodes.get(&pa).map(|x| x.kind == Kind::Link).unwrap_or(false);
+                        alt(if good { ok(Val::Unit) } else { Expect::PanicWith(vec![mname.clone()]) }, Next::State(Box::new(t)))
+                    })
+                    .collect()
+            },
+            "remove" | "remove_all" => {
+                if k == K::Missing {
+                    return pass();
+                }
+                let op = if name == "remove" { Op::Remove { p: pa.clone() } } else { Op::RemoveAll { p: pa.clone() } };
+                effect(op)
+                    .into_iter()
+                    .map(|(okk, n)| {
+                        if matches!(n, Next::Resync(_)) {
+                            return alt(Expect::Any, n);
+                        }
+                        let t = after(&n);
+                        let good = okk && !t.nodes.contains_key(&pa);
+                        alt(if good { ok(Val::Unit) } else { Expect::PanicWith(vec![mname.clone(), pa.clone()]) }, Next::State(Box::new(t)))
+                    })
+                    .collect()
+            },
+            _ => same(Expect::Any),
+        }
+    }
+
     /// Acceptable (outcome, successor) pairs of `op` in the current state
     pub fn eval(&self, op: &Op) -> Vec<Alt> {
         macro_rules! abs_or {
@@ -1273,7 +1452,8 @@ impl Model {
                 },
                 None => same(Expect::Any),
             },
-            Op::Macro { .. } | Op::Expand { .. } | Op::UserDir { .. } | Op::Getrids { .. } => same(Expect::Any),
+            Op::Macro { name, a, b, mode, d } => self.macro_eval(name, a, b, *mode, d),
+            Op::Expand { .. } | Op::UserDir { .. } | Op::Getrids { .. } => same(Expect::Any),
         }
     }
 
